@@ -160,7 +160,7 @@ pub fn r_lw(w: &LunarWeek) -> String {
   format!("LW({} {} idx={} start={} {})", w.get_year(), w.get_month(), w.get_index(), w.get_start(), w)
 }
 
-fn r_lf(f: &LunarFestival) -> String {
+pub fn r_lf(f: &LunarFestival) -> String {
   format!("LF(idx={} type={} {} day={} term={})", f.get_index(), f.get_type(), f, r_ld(&f.get_day()), opt(f.get_solar_term().map(|t| r_term(&t))))
 }
 
@@ -380,6 +380,35 @@ fn h_cmp(kind: usize, a: &[i64]) -> Result<String, String> {
   x.compare(&y).ok_or("not comparable".to_string())
 }
 
+macro_rules! hkind_fns {
+  ($new:ident, $get:ident, $step:ident, $cmp:ident, $k:expr) => {
+    fn $new(a: &[i64]) -> Result<String, String> {
+      h_new($k, a)
+    }
+    fn $get(a: &[i64]) -> Result<String, String> {
+      h_get($k, a)
+    }
+    fn $step(a: &[i64]) -> Result<String, String> {
+      h_step($k, a)
+    }
+    fn $cmp(a: &[i64]) -> Result<String, String> {
+      h_cmp($k, a)
+    }
+  };
+}
+
+#[allow(dead_code)]
+fn _unused_steps() -> [ExecFn; 2] {
+  [q_ec_step, q_clh_step]
+}
+
+hkind_fns!(q_ec_mk, q_ec_get, q_ec_step, q_ec_cmp, 6);
+hkind_fns!(q_clh_new, q_clh_get, q_clh_step, q_clh_cmp, 7);
+hkind_fns!(q_df_new, q_df_get, q_df_step, q_df_cmp, 8);
+hkind_fns!(q_ft_new, q_ft_get, q_ft_step, q_ft_cmp, 9);
+hkind_fns!(q_scm_new, q_scm_get, q_scm_step, q_scm_cmp, 10);
+hkind_fns!(q_lfh_new, q_lfh_get, q_lfh_step, q_lfh_cmp, 11);
+
 fn q_ld_cmp(a: &[i64]) -> Result<String, String> {
   h_cmp(0, a)
 }
@@ -576,7 +605,7 @@ fn gender(x: i64) -> Gender {
   }
 }
 
-fn r_cl(c: &ChildLimit) -> String {
+pub fn r_cl(c: &ChildLimit) -> String {
   format!("CL({} {} fwd={} y={} m={} d={} h={} mi={} start={} end={} age={}..{} scy={}..{})", r_ec(&c.get_eight_char()), c.get_gender(), c.is_forward(), c.get_year_count(), c.get_month_count(), c.get_day_count(), c.get_hour_count(), c.get_minute_count(), r_st(&c.get_start_time()), r_st(&c.get_end_time()), c.get_start_age(), c.get_end_age(), c.get_start_sixty_cycle_year(), c.get_end_sixty_cycle_year())
 }
 
@@ -856,6 +885,28 @@ pub static KINDS: &[KindDef] = &[
   KindDef { name: "LD.step", arity: 4, exec: q_ld_step, family: FAM_LD, cost: 0 },
   KindDef { name: "LH.step", arity: 7, exec: q_lh_step, family: FAM_LH, cost: 0 },
   KindDef { name: "LD.hour", arity: 4, exec: q_ld_hour, family: FAM_LD, cost: 1 },
+  KindDef { name: "EC.mk", arity: 5, exec: q_ec_mk, family: FAM_EC, cost: 0 },
+  KindDef { name: "EC.get", arity: 6, exec: q_ec_get, family: FAM_EC, cost: 2 },
+  KindDef { name: "EC.cmp", arity: 10, exec: q_ec_cmp, family: FAM_EC, cost: 0 },
+  KindDef { name: "CLH.new", arity: 7, exec: q_clh_new, family: FAM_EC, cost: 1 },
+  KindDef { name: "CLH.get", arity: 8, exec: q_clh_get, family: FAM_EC, cost: 1 },
+  KindDef { name: "CLH.cmp", arity: 14, exec: q_clh_cmp, family: FAM_EC, cost: 1 },
+  KindDef { name: "DF.new", arity: 8, exec: q_df_new, family: FAM_EC, cost: 1 },
+  KindDef { name: "DF.get", arity: 9, exec: q_df_get, family: FAM_EC, cost: 1 },
+  KindDef { name: "DF.step", arity: 9, exec: q_df_step, family: FAM_EC, cost: 1 },
+  KindDef { name: "DF.cmp", arity: 16, exec: q_df_cmp, family: FAM_EC, cost: 1 },
+  KindDef { name: "FT.new", arity: 8, exec: q_ft_new, family: FAM_EC, cost: 1 },
+  KindDef { name: "FT.get", arity: 9, exec: q_ft_get, family: FAM_EC, cost: 1 },
+  KindDef { name: "FT.step", arity: 9, exec: q_ft_step, family: FAM_EC, cost: 1 },
+  KindDef { name: "FT.cmp", arity: 16, exec: q_ft_cmp, family: FAM_EC, cost: 1 },
+  KindDef { name: "SCM.new", arity: 2, exec: q_scm_new, family: FAM_SC, cost: 1 },
+  KindDef { name: "SCM.get", arity: 3, exec: q_scm_get, family: FAM_SC, cost: 1 },
+  KindDef { name: "SCM.step", arity: 3, exec: q_scm_step, family: FAM_SC, cost: 1 },
+  KindDef { name: "SCM.cmp", arity: 4, exec: q_scm_cmp, family: FAM_SC, cost: 1 },
+  KindDef { name: "LF.new", arity: 2, exec: q_lfh_new, family: FAM_FE, cost: 1 },
+  KindDef { name: "LF.get", arity: 3, exec: q_lfh_get, family: FAM_FE, cost: 1 },
+  KindDef { name: "LF.step", arity: 3, exec: q_lfh_step, family: FAM_FE, cost: 1 },
+  KindDef { name: "LF.cmp", arity: 4, exec: q_lfh_cmp, family: FAM_FE, cost: 1 },
   KindDef { name: "LD.cmp", arity: 6, exec: q_ld_cmp, family: FAM_LD, cost: 0 },
   KindDef { name: "LH.cmp", arity: 12, exec: q_lh_cmp, family: FAM_LH, cost: 0 },
   KindDef { name: "SCD.cmp", arity: 6, exec: q_scd_cmp, family: FAM_SC, cost: 1 },
